@@ -28,7 +28,7 @@ pub fn install_panic_hook() {
             "<non-string panic>".to_string()
         };
         // Panics of the harness itself must stay visible
-        if !loc.contains("/repo/") && !loc.starts_with("src/") && msg != "WATCHDOG" && !loc.contains(".cargo/registry") && !loc.contains("/rustc/") {
+        if !loc.contains("/repo/") && msg != "WATCHDOG" && !loc.contains(".cargo/registry") && !loc.contains("/rustc/") {
             eprintln!("HARNESS PANIC at {loc}: {msg}");
         }
         LAST_PANIC.with(|p| *p.borrow_mut() = Some(format!("{loc}: {msg}")));
